@@ -33,7 +33,6 @@ import shutil
 import tempfile
 from pathlib import Path
 from typing import IO, Iterable, List, cast, Optional, Dict  # noqa: F401
-from urllib.parse import unquote
 from uuid import uuid4
 
 from .logging import log
@@ -298,7 +297,9 @@ class _FilesystemDataSource(DataSource):
                         continue
                     # Filter down to files that begin with file_prefix
                     if entry.name.startswith(file_prefix):
-                        entry_name = unquote(entry.name)
+                        # exact inverse of _escape_key (a general unquote() would also decode
+                        # "%xx" sequences that are part of the key itself)
+                        entry_name = entry.name.replace("%3A", ":")
                         # (only files carry the .link suffix; a directory - e.g. a function whose
                         # version string ends in ".link" - is listed under its own name)
                         if entry_name.endswith(".link") and not entry.is_dir():
